@@ -519,21 +519,26 @@ func (e *Env) rawVisit(c *gkvlite.Collection, kind VisitKind, target []byte, wit
 				return take(i)
 			})
 		case VIterAsc, VIterDesc:
+			baseProducers, _ := IterProducers()
 			var it gkvlite.ItemIterator
 			if kind == VIterAsc {
 				it = c.IterateAscend(target, withValue)
 			} else {
 				it = c.IterateDescend(target, withValue)
 			}
+			exhausted := true
 			for it.Next() {
 				if !take(it.Result()) {
+					exhausted = false
 					break
 				}
 			}
+			if exhausted {
+				err = it.Err() // only meaningful (and ordered after the producer's write) once Next() returned false
+			}
 			it.Close()
-			err = it.Err()
 			// the producer goroutine must exit (and release its version) once the consumer is done
-			if st := WaitIterProducers(20 * time.Second); st != "" {
+			if st := WaitIterProducersAbove(baseProducers, 20*time.Second); st != "" {
 				e.Failf("C18/iterator-producer-still-alive", "the iterator's producer goroutine is still alive after Close():\n%s", st)
 			}
 		}
